@@ -158,6 +158,16 @@ func randCount(r *vlib.Rand, profile int, min int) int {
 	}
 }
 
+// smallTx draws transactions until one encodes to at most max bytes.
+func smallTx(r *vlib.Rand, profile, witness, max int) *reftx.Tx {
+	for {
+		t := randTx(r, profile, witness)
+		if t.TotalSize() <= max {
+			return t
+		}
+	}
+}
+
 // randTx builds a random transaction with >= 1 input. profile 0 small, 1 medium, 2 big.
 func randTx(r *vlib.Rand, profile int, witness int) *reftx.Tx {
 	t := &reftx.Tx{Version: r.U32(), LockTime: r.U32()}
@@ -284,8 +294,20 @@ func csWider(v uint64) [][]byte {
 	return out
 }
 
-var hugeCounts = []uint64{1 << 16, 1<<16 + 1, 1 << 20, 1 << 24, reftx.MaxSize, reftx.MaxSize + 1, 1 << 28, 1<<31 - 1, 1 << 31,
-	1<<32 - 1, 1 << 32, 1 << 40, 1 << 48, 1 << 62, 1<<63 - 1, 1 << 63, 1<<64 - 1}
+// counts with short bodies. "cheap" values never cost more than a few MiB in gocoin or make it
+// refuse through a recovered panic (>= 2^48 entries exceed Go's maximal allocation, >= 2^63 are
+// negative as int); "costly" values make gocoin allocate hundreds of MiB or kill the worker with a
+// fatal out-of-memory error, so only a sample of them is issued per batch.
+var cheapCounts = []uint64{1 << 16, 1<<16 + 1, 1 << 20, 1 << 48, 1 << 62, 1<<63 - 1, 1 << 63, 1<<64 - 1}
+var costlyCounts = []uint64{1 << 24, reftx.MaxSize, reftx.MaxSize + 1, 1 << 28, 1<<31 - 1, 1 << 31, 1<<32 - 1, 1 << 32, 1 << 36, 1 << 40, 1 << 44}
+
+func hugeSample(r *vlib.Rand, costlyNum, costlyDen int) []uint64 {
+	out := append([]uint64{}, cheapCounts...)
+	if r.Chance(costlyNum, costlyDen) {
+		out = append(out, costlyCounts[r.Intn(len(costlyCounts))])
+	}
+	return out
+}
 
 func splice(b []byte, off, n int, repl []byte) []byte {
 	out := make([]byte, 0, len(b)-n+len(repl))
@@ -331,7 +353,7 @@ func genBatch(seed int64, batch int) []tcase {
 
 	// 2. every truncation of a few transactions (and the same with spare capacity behind len)
 	for i := 0; i < 7; i++ {
-		b, fl := encodeTx(randTx(r, i%2, 2))
+		b, fl := encodeTx(smallTx(r, i%2, 2, 500))
 		for n := 0; n < len(b); n++ {
 			add('t', "trunc", fieldAt(fl, n), b[:n:n])
 		}
@@ -344,7 +366,7 @@ func genBatch(seed int64, batch int) []tcase {
 
 	// 3. every single-byte mutation of a few transactions
 	for i := 0; i < 3; i++ {
-		b, fl := encodeTx(randTx(r, i%2, 2))
+		b, fl := encodeTx(smallTx(r, i%2, 2, 400))
 		for n := 0; n < len(b); n++ {
 			m := append([]byte{}, b...)
 			var v byte
@@ -366,7 +388,7 @@ func genBatch(seed int64, batch int) []tcase {
 
 	// 4. CompactSize forms at every count / length position
 	for i := 0; i < 3; i++ {
-		b, fl := encodeTx(randTx(r, i%2, 1))
+		b, fl := encodeTx(smallTx(r, i%2, 1, 1500))
 		for _, f := range fl {
 			if !f.Count {
 				continue
@@ -374,12 +396,7 @@ func genBatch(seed int64, batch int) []tcase {
 			for _, w := range csWider(f.Val) {
 				add('t', "cs-nonminimal", f.Name, splice(b, f.Off, f.Len, w))
 			}
-			for k, hv := range hugeCounts {
-				// the two values that make a pointer slice of 2^28 entries are expensive: sample them
-				if (hv == 1<<28 || hv == reftx.MaxSize || hv == reftx.MaxSize+1 || hv == 1<<24) && !r.Chance(1, 6) {
-					continue
-				}
-				_ = k
+			for _, hv := range hugeSample(r, 1, 8) {
 				add('t', "cs-huge", f.Name, splice(b, f.Off, f.Len, reftx.AppendCompactSize(nil, hv)))
 			}
 			for _, d := range []uint64{f.Val + 1, f.Val - 1, f.Val + 2} {
@@ -391,10 +408,7 @@ func genBatch(seed int64, batch int) []tcase {
 		}
 	}
 	// huge counts on a short body (the 19-byte shape of the design's probe)
-	for _, hv := range hugeCounts {
-		if (hv == 1<<28 || hv == reftx.MaxSize || hv == reftx.MaxSize+1) && batch%4 != 0 {
-			continue
-		}
+	for _, hv := range hugeSample(r, 1, 1) {
 		b := []byte{1, 0, 0, 0}
 		b = reftx.AppendCompactSize(b, hv)
 		b = append(b, r.Bytes(r.Intn(12))...)
@@ -457,11 +471,14 @@ func genBatch(seed int64, batch int) []tcase {
 	}
 	if batch%8 == 0 {
 		// a block whose transactions exceed the 4096-byte hashing pack several times
-		b, _ := encodeBlock(randBlock(r, 30+r.Intn(40), 2))
+		b, _ := encodeBlock(randBlock(r, 40+r.Intn(60), 1))
 		add('b', "block-valid-big", "", b)
 	}
 	{
 		bl := randBlock(r, 1+r.Intn(3), 0)
+		for bl.TotalSize() > 600 {
+			bl = randBlock(r, 1+r.Intn(3), 0)
+		}
 		b, fl := encodeBlock(bl)
 		for n := 0; n < len(b); n++ {
 			if n < 76 && n%8 != 0 {
@@ -492,10 +509,11 @@ func genBatch(seed int64, batch int) []tcase {
 				add('b', "block-cs-nonminimal", f.Name, splice(b, f.Off, f.Len, w))
 			}
 			if f.Name == "tx-count" || r.Chance(1, 4) {
-				for _, hv := range hugeCounts {
-					if (hv == 1<<28 || hv == reftx.MaxSize || hv == reftx.MaxSize+1 || hv == 1<<24) && !r.Chance(1, 8) {
-						continue
-					}
+				cn := 1
+				if f.Name == "tx-count" {
+					cn = 4
+				}
+				for _, hv := range hugeSample(r, cn, 4) {
 					add('b', "block-cs-huge", f.Name, splice(b, f.Off, f.Len, reftx.AppendCompactSize(nil, hv)))
 				}
 			}
